@@ -19,6 +19,7 @@ TStatic ==
   /\ IsEv("Tables")
   /\ LET net == Traces[tid].net IN
      /\ Chk("EmittedTablesReadable", Ev.ok)
+     /\ Chk("ElementListIsTheAtomsPresent", Ev.elements_ok)
      /\ Chk("Additive", Additive(net))
      /\ Chk("Coupling", Coupling(net))
      /\ Chk("MatrixCoefficients", \A i, j \in 1..NE(net) : Triples(Ev.M[(i - 1) * NE(net) + j]) = MTerms(net, i, j))
